@@ -1,6 +1,7 @@
 package sim
 
 import (
+	"encoding/csv"
 	"fmt"
 	"regexp"
 	"sort"
@@ -61,6 +62,10 @@ type c14Meta struct {
 	NA    int       `json:"na"`
 	NB    int       `json:"nb"`
 	Kind  string    `json:"kind"` // mixed | prefix (reading prefix + one final changing block)
+	// kind sibling: Alt[0] is Stmts[0] with further expressions between its first
+	// SibHead and last SibTail select fields
+	SibHead int `json:"sib_head,omitempty"`
+	SibTail int `json:"sib_tail,omitempty"`
 }
 
 func exprList(r *Rng, n int) string {
@@ -189,6 +194,72 @@ func genEquivPair(r *Rng) ([]string, []string) {
 	default:
 		return []string{"VAR @t := 'q'; REPLACE INTO a (id, g, v, s) USING (id) VALUES (1, 0, @n, @t); @t := 'r'; @n := @n + 1; REPLACE INTO a (id, g, v, s) USING (id) VALUES (2, 0, @n, @t); @n := 5; DISPOSE @t;"},
 			[]string{"REPLACE INTO a (id, g, v, s) USING (id) VALUES (1, 0, 5, 'q'); REPLACE INTO a (id, g, v, s) USING (id) VALUES (2, 0, 6, 'r');"}
+	}
+}
+
+// sibExpr: an expression over the columns of a that only reads them.
+func sibExpr(r *Rng) string {
+	ensureFnNames()
+	plain := []string{"id", "g", "v", "s", "s", "v"}
+	switch k := r.Intn(20); {
+	case k < 6:
+		return c14Exprs[r.Intn(len(c14Exprs))]
+	case k < 12:
+		a := []string{plain[r.Intn(len(plain))]}
+		for i, n := 0, r.Pick(0, 0, 1, 1, 2); i < n; i++ {
+			a = append(a, r.PickS("2", "'%Y-%m-%d'", "'a'", "1", "g", "s", "0", "@n", "@x", "id", "v"))
+		}
+		return fmt.Sprintf("%s(%s)", builtinNames[r.Intn(len(builtinNames))], strings.Join(a, ", "))
+	case k < 15:
+		// functions that build a working view from the current record
+		return r.PickS("JSON_OBJECT(s)", "JSON_OBJECT(v, s)", "JSON_OBJECT(s, g)", "JSON_OBJECT(g AS k, s AS w)", "JSON_OBJECT(v)", "JSON_OBJECT(s AS id)", "JSON_OBJECT(id, g, v, s)", "JSON_OBJECT(g, id)")
+	case k < 17:
+		return r.PickS("(SELECT MAX(w) FROM b WHERE b.g = a.g)", "(SELECT COUNT(*) FROM b WHERE b.id > a.id)", "f(v, id)", "f(g, v)", "CASE WHEN v > 0 THEN s ELSE STRING(g) END", "COALESCE(v, g, id)")
+	case k < 19:
+		return r.PickS("s || STRING(g)", "g + v * id", "UPPER(s) || LOWER(s)", "v IS NULL OR g > 1", "(g, v) = (1, 2)", "s IN (SELECT 'cat' FROM b)", "v BETWEEN g AND id", "IF(g > 1, s, v)")
+	default:
+		return r.PickS("(SELECT s FROM a x WHERE x.id = a.id)", "EXISTS (SELECT 1 FROM b WHERE b.g = a.g)", "v > ANY (SELECT w FROM b)", "(SELECT JSON_OBJECT(s, v) FROM a y WHERE y.id = a.id)")
+	}
+}
+
+// genSiblingPair returns a reading statement, the same statement with further
+// expressions in it, and how many leading and trailing result columns the two
+// have in common. Evaluating the additional expressions only reads the row, so
+// the common columns must print the same (oracle 7).
+func genSiblingPair(r *Rng) (string, string, int, int) {
+	ensureFnNames()
+	exprs := func(n int, pfx string) string {
+		var l []string
+		for i := 0; i < n; i++ {
+			l = append(l, fmt.Sprintf("%s AS %s%d", sibExpr(r), pfx, i))
+		}
+		return strings.Join(l, ", ")
+	}
+	cond := ""
+	if r.Bool(0.3) {
+		cond = " WHERE " + genCond(r, "", 4)
+	}
+	switch r.Intn(10) {
+	case 0, 1, 2, 3:
+		ord := r.PickS("", "", " ORDER BY id", " ORDER BY g, id")
+		return fmt.Sprintf("SELECT id, g, v, s, id AS i2, s AS s2 FROM a%s%s;", cond, ord),
+			fmt.Sprintf("SELECT id, g, v, s, %s, id AS i2, s AS s2 FROM a%s%s;", exprs(r.Pick(1, 1, 2, 3), "e"), cond, ord), 4, 2
+	case 4, 5:
+		e := sibExpr(r)
+		return "SELECT id, g, v, s FROM a;", fmt.Sprintf("SELECT id, g, v, s FROM a WHERE (%s) IS NULL OR (%s) IS NOT NULL;", e, e), 4, 0
+	case 6:
+		e := sibExpr(r)
+		return "SELECT * FROM a ORDER BY id;", fmt.Sprintf("SELECT * FROM a ORDER BY (%s) IS NULL AND FALSE, id;", e), 4, 0
+	case 7, 8:
+		col := func() string { return r.PickS("id", "g", "v", "s", "v * 1.5", "s || 'x'", "UPPER(s)") }
+		agg := func(i int) string {
+			return fmt.Sprintf("%s(%s%s) AS a%d", aggNames[r.Intn(len(aggNames))], r.PickS("", "", "DISTINCT "), col(), i)
+		}
+		return "SELECT g, COUNT(*) AS c, MIN(id) AS m, MAX(s) AS x, SUM(v) AS t FROM a GROUP BY g;",
+			fmt.Sprintf("SELECT g, COUNT(*) AS c, MIN(id) AS m, %s, %s, MAX(s) AS x, SUM(v) AS t FROM a GROUP BY g;", agg(0), agg(1)), 3, 2
+	default:
+		an := fmt.Sprintf("%s(%s) OVER (PARTITION BY %s ORDER BY id) AS w", r.PickS(anaNames[r.Intn(len(anaNames))], aggNames[r.Intn(len(aggNames))]), r.PickS("v", "s", "id", "v, 1", "s, 1, s", "v, 2", ""), r.PickS("g", "id % 3", "s"))
+		return "SELECT id, g, v, s FROM a ORDER BY id;", fmt.Sprintf("SELECT id, g, v, %s, s FROM a ORDER BY id;", an), 3, 1
 	}
 }
 
@@ -336,7 +407,7 @@ func renderC14(sc *Scenario, m *c14Meta) {
 
 func (c14) Gen(seed uint64, tier string) *Scenario {
 	r := Sub(seed, "c14")
-	m := &c14Meta{Kind: r.PickS("mixed", "mixed", "prefix", "fnprobe", "fnprobe", "equiv")}
+	m := &c14Meta{Kind: r.PickS("mixed", "mixed", "prefix", "fnprobe", "fnprobe", "equiv", "sibling")}
 	big := r.Bool(0.12)
 	if big {
 		m.NA, m.NB = r.Range(150, 400), r.Range(0, 20)
@@ -355,6 +426,13 @@ func (c14) Gen(seed uint64, tier string) *Scenario {
 			m.Alt = append(m.Alt, c14Stmt{Src: x, Repeat: 1})
 		}
 		m.Alt = append(m.Alt, c14Stmt{Src: "SELECT * FROM a; PRINT @x; PRINT @n; PRINT @f; PRINT @d; PRINT @u;", Repeat: 1, Reads: true}, c14Stmt{Src: "COMMIT;", Repeat: 1})
+		n = 0
+	}
+	if m.Kind == "sibling" {
+		base, ext, head, tail := genSiblingPair(r)
+		m.Stmts = append(m.Stmts, c14Stmt{Src: base, Repeat: 1, Reads: true})
+		m.Alt = append(m.Alt, c14Stmt{Src: ext, Repeat: 1, Reads: true}, c14Stmt{Src: "COMMIT;", Repeat: 1})
+		m.SibHead, m.SibTail = head, tail
 		n = 0
 	}
 	if m.Kind == "fnprobe" {
@@ -420,6 +498,9 @@ func (c14) Shrinks(c *Case) []*Case {
 	for i := len(meta.Stmts) - 1; i >= 0; i-- {
 		if len(meta.Stmts) < 2 {
 			break
+		}
+		if (meta.Kind == "sibling" || meta.Kind == "equiv") && i == 0 {
+			continue // the statement the comparison is about
 		}
 		cand := cloneCase(c)
 		var m c14Meta
@@ -489,6 +570,7 @@ func (c14) Eval(t *testing.T, c *Case, dec func(int) *Decider) *Outcome {
 	c14MultiWorker = sc.Procs[0].CPU > 1
 	policies := []string{"fresh", "lifo", "fifo", "random", "poison"}
 	results := map[string]string{}
+	var freshSecs map[string]string
 	for i, pol := range policies {
 		psc := *sc
 		psc.Knobs.Pool = pol
@@ -511,6 +593,9 @@ func (c14) Eval(t *testing.T, c *Case, dec func(int) *Decider) *Outcome {
 		p := res.Procs[0]
 		results[pol] = normErrLines(resultOf(res))
 		secs, astChanged, finished := shellSections(p.Stdout)
+		if pol == "fresh" {
+			freshSecs = secs
+		}
 		if !finished && p.ExitCode == 0 {
 			o.viol(prop, "termination", "truncated", "process ended without finishing its statements")
 		}
@@ -640,6 +725,38 @@ func (c14) Eval(t *testing.T, c *Case, dec func(int) *Decider) *Outcome {
 			o.Stats.probe("equiv-scenario-equal")
 		}
 	}
+	// (7) further expressions in a reading statement do not change what its other columns print
+	if meta.Kind == "sibling" && len(meta.Alt) > 0 && freshSecs != nil {
+		alt := *sc
+		alt.Procs = append([]ProcSpec{}, sc.Procs...)
+		am := meta
+		am.Stmts = meta.Alt
+		renderC14Into(&alt, &am)
+		alt.Knobs.Pool = "lifo"
+		resB, _ := Execute(t, &alt, dec(len(policies)+4))
+		o.Runs++
+		sb, _, _ := shellSections(resB.Procs[0].Stdout)
+		base, ext := freshSecs["1.0"], sb["1.0"]
+		switch {
+		case resB.Hang != "" || resB.Procs[0].Panic != "":
+			o.viol(prop, "termination", "hang-or-panic:sibling", fmt.Sprintf("the extended statement did not end normally: %s %s", resB.Hang, resB.Procs[0].Panic))
+		case strings.HasPrefix(base, "ERROR") || base == "":
+			o.Stats.probe("sibling-base-failed")
+		case strings.HasPrefix(ext, "ERROR") || ext == "":
+			o.Stats.probe("sibling-extension-failed")
+		default:
+			pa, ea := projectCSV(base, meta.SibHead, meta.SibTail)
+			pb, eb := projectCSV(ext, meta.SibHead, meta.SibTail)
+			if ea != nil || eb != nil {
+				o.Stats.probe("sibling-unparsable")
+			} else if pa != pb {
+				o.viol(prop, "read-only-expression", "sibling-columns-changed:"+stmtKind(meta.Alt[0].Src),
+					fmt.Sprintf("adding expressions that only read the row changes what the other columns of the same statement print: %s\n  statement: %s\n  extended:  %s", firstDiff(pa, pb), meta.Stmts[0].Src, meta.Alt[0].Src))
+			} else {
+				o.Stats.probe("sibling-columns-equal")
+			}
+		}
+	}
 	o.Sample = map[string]interface{}{"seed": c.Seed, "kind": meta.Kind, "statements": sc.Procs[0].Statements, "repeats": sc.Procs[0].Repeats, "cpu": sc.Procs[0].CPU, "knobs": sc.Knobs}
 	return o
 }
@@ -678,4 +795,26 @@ func normErrLines(s string) string {
 		}
 	}
 	return strings.Join(lines, "\n")
+}
+
+// projectCSV keeps the first head and the last tail columns of a CSV result set.
+func projectCSV(out string, head, tail int) (string, error) {
+	rd := csv.NewReader(strings.NewReader(out))
+	rd.FieldsPerRecord = -1
+	rd.LazyQuotes = true
+	recs, err := rd.ReadAll()
+	if err != nil {
+		return "", err
+	}
+	var b strings.Builder
+	for _, rec := range recs {
+		if len(rec) < head+tail {
+			return "", fmt.Errorf("short record")
+		}
+		b.WriteString(strings.Join(rec[:head], "\x1f"))
+		b.WriteString("\x1e")
+		b.WriteString(strings.Join(rec[len(rec)-tail:], "\x1f"))
+		b.WriteString("\n")
+	}
+	return b.String(), nil
 }
